@@ -696,6 +696,7 @@ def render_extract(ex, vac=False, strip_proof=False):
         import copy
         ex = copy.copy(ex)
         ex.loops, ex.loop_iter, ex.before, ex.after = {}, {}, [], []
+        ex.attrs = list(ex.attrs) + ['#[verifier::exec_allows_no_decreases_clause]']
     log = []
     src_path = os.path.join(REPO, ex.file)
     try:
